@@ -224,14 +224,71 @@ def histories(tier):
   return H
 
 
+def check_foreign_reference(acc):
+  """a component that keeps a reference to a SIBLING's port (handed to its constructor) is replaced: the sibling's port stays what it
+  is, and the design simulates like the one built directly, for every input value"""
+  from pymtl3 import Component, InPort, OutPort, Bits4, update, DefaultPassGroup
+  from pymtl3.dsl.Connectable import Signal
+
+  class FA(Component):
+    def construct(s):
+      s.in_ = InPort(Bits4); s.out = OutPort(Bits4)
+      @update
+      def up_a(): s.out @= s.in_ + 1
+
+  def mk(inc):
+    class FB(Component):
+      def construct(s, ext):
+        s.in_ = InPort(Bits4); s.out = OutPort(Bits4)
+        s.ext = ext                       # just another reference to the sibling's out port
+        @update
+        def up_b(): s.out @= s.in_ + s.ext + inc
+    FB.__name__ = f"FB{inc}"
+    return FB
+  B1, B2 = mk(1), mk(2)
+
+  class FTop(Component):
+    def construct(s, X):
+      s.in_ = InPort(Bits4); s.out = OutPort(Bits4); s.o2 = OutPort(Bits4)
+      s.a = FA(); s.a.in_ //= s.in_
+      s.b = X(s.a.out); s.b.in_ //= s.in_
+      s.out //= s.b.out; s.o2 //= s.a.out
+
+  def sim(top):
+    top.apply(DefaultPassGroup()); top.sim_reset()
+    res = []
+    for v in range(16):
+      top.in_ @= v; top.sim_tick(); res.append((int(top.out), int(top.o2)))
+    return res
+
+  case = dict(hand="foreign-reference")
+  want = [((v + (v + 1) + 2) & 15, (v + 1) & 15) for v in range(16)]
+  direct = FTop(B2); direct.elaborate()
+  if sim(direct) != want: raise MachineryError("the directly built design does not follow the hand-computed values")
+  top = FTop(B1); top.elaborate()
+  acc.count("executions"); acc.count("transitions")
+  try:
+    top.replace_component(top.b, B2)
+  except Exception as ex:
+    acc.violation("foreign-reference:replace-raised", case, "replacement succeeds", f"{type(ex).__name__}: {str(ex)[:120]}"); return
+  sigs = {repr(x) for x in top.get_all_object_filter(lambda x: isinstance(x, Signal))}
+  if repr(top.a.out) != "s.a.out" or "s.a.out" not in sigs:
+    acc.violation("foreign-reference:sibling-port-deleted", case, "s.a.out untouched", repr(top.a.out)); return
+  got = sim(top)
+  if got != want: acc.violation("foreign-reference:sim-differs", case, want[:4], got[:4])
+
+
 def shards(tier):
   n = len(histories(tier))
   k = 32
-  return [(i, k) for i in range(k)]
+  return [(i, k) for i in range(k)] + [("hand", 0)]
 
 
 def run_shard(shard, tier, seed):
   acc = Acc()
+  if shard[0] == "hand":
+    check_foreign_reference(acc)
+    return acc
   H = histories(tier)
   for j in range(shard[0], len(H), shard[1]):
     hist = H[j]
@@ -246,6 +303,9 @@ def run_shard(shard, tier, seed):
 
 
 def replay(case):
+  if case.get("hand"):
+    acc = Acc(); check_foreign_reference(acc)
+    return [(v["sig"], v["expected"], v["observed"], v["msg"]) for v in acc.violations]
   fails, _ = run_history([tuple(h) for h in case["hist"]], Acc())
   return fails
 
